@@ -123,6 +123,23 @@ func runOSCase(c OSCase, b *Batch, res *Result) error {
 	for i, op := range c.Ops {
 		route := c.Hidden != nil && opRouteHasLink(rc, op)
 		out := execOp(rc, real, op)
+		if c.Hidden == nil && !c.Confine && len(out) > 2 && out[0] == "ok" && path.Clean("/"+op.A[0]) == "/" {
+			// C14: names reported for the root of a PrefixFS are the separator, never the prefix directory's name
+			var got []string
+			switch op.K {
+			case "stat", "lstat":
+				got = []string{out[2]} // ok info <name> …
+			case "fstat":
+				got = []string{out[1], out[2]} // ok <File.Name()> <FileInfo.Name()> …
+			case "read":
+				got = []string{out[2]} // ok names|data <File.Name()> …
+			}
+			for _, n := range got {
+				if n != "/" {
+					res.violate(Violation{Property: "C14", What: fmt.Sprintf("%v on the root of the PrefixFS reports the name %q, expected the separator (the prefix directory is %q)", op, n, path.Base(rc.Root)), Case: c})
+				}
+			}
+		}
 		cmd, f := modelOpFields(op)
 		b.Add(fmt.Sprintf("%s op%d %v", tag, i, op), line(append([]string{"os." + cmd, stack}, f...)...), line(out...))
 		b.Add(fmt.Sprintf("%s tree-after-op%d %v", tag, i, op), line("os.tree", treeRoot), line(dump()...))
